@@ -2,7 +2,7 @@
 over hash-consed tuples), loop recognition and crate-local call graph.  No library code is executed; everything
 here walks the JSON facts dumped by the opw-facts driver."""
 import re
-from . import fieldalias, desugar
+from . import fieldalias, desugar, inline
 from functools import lru_cache
 
 
@@ -16,6 +16,7 @@ class Program:
         self.facts = facts
         self.field_aliases = fieldalias.apply(facts)
         self.desugared = desugar.apply(facts)
+        self.inlined = inline.apply(facts)
         self.bodies = {}
         for b in facts['bodies']:
             self.bodies[b['path']] = Body(b, self)
@@ -573,13 +574,27 @@ class Body:
         """[(term, def, return_block)] over all return blocks and reaching definitions of _0."""
         out = []
         seen = set()
+        def through_copies(t, d, depth=3):
+            # `_0 = move _r` where _r itself is assigned on several paths (a result local of an inlined helper): the values of _r
+            if d and d[0] == 'st' and d[4] and depth > 0:
+                rv = d[3]['rv']
+                if rv['k'] == 'use' and rv['op']['k'] in ('move', 'copy') and not rv['op']['place']['proj']:
+                    src = rv['op']['place']['local']
+                    alts = self.terms_at(src, (d[1], d[2]))
+                    if len(alts) > 1 and all(d2 is not None and d2[4] for t2, d2 in alts):
+                        res = []
+                        for t2, d2 in alts:
+                            res.extend(through_copies(t2, d2, depth - 1))
+                        return res
+            return [(t, d)]
         for rb in self.return_blocks():
-            for t, d in self.terms_at(0, (rb, None)):
-                k = (d[1], d[2]) if d else None
-                if k in seen:
-                    continue
-                seen.add(k)
-                out.append((t, d, rb))
+            for t0, d0 in self.terms_at(0, (rb, None)):
+                for t, d in through_copies(t0, d0):
+                    k = (d[1], d[2]) if d else None
+                    if k in seen:
+                        continue
+                    seen.add(k)
+                    out.append((t, d, rb))
         return out
 
     def place_term(self, p, at=None):
